@@ -74,8 +74,8 @@ def gen_case(run_seed, tier):
         length = sz.randint(6, 20)
     init = sz.choice(["zero", "plus", "one", "graph", "arrays"])
     api = sz.choice(["func", "func", "stab", "mixed"])
-    kinds = ["g1", "g2", "mz", "mcopy", "reset", "swap", "ins", "addq", "rem", "tensor", "ptrace", "circ"]
-    w = {"g1": 8, "g2": 6, "mz": 2, "mcopy": 1, "reset": 1.5, "swap": 1.5, "ins": 1.5, "addq": 0.7, "rem": 1.5, "tensor": 0.7, "ptrace": 0.7, "circ": 1.0}
+    kinds = ["g1", "g2", "mz", "mcopy", "reset", "swap", "ins", "addq", "rem", "tensor", "ptrace", "circ", "clone"]
+    w = {"g1": 8, "g2": 6, "mz": 2, "mcopy": 1, "reset": 1.5, "swap": 1.5, "ins": 1.5, "addq": 0.7, "rem": 1.5, "tensor": 0.7, "ptrace": 0.7, "circ": 1.0, "clone": 0.6}
     for k in kinds:
         if k not in ("g1", "g2") and sz.random() < 0.2:
             w[k] = 0
@@ -96,6 +96,8 @@ def gen_case(run_seed, tier):
             hist.append([wl.choice(["rz", "rz", "rx", "ry"]), a, wl.randrange(2), det, bit])
         elif k == "swap":
             hist.append(["swap", a, b, wl.random() < 0.1])
+        elif k == "clone":
+            hist.append(["clone", wl.randrange(3)])
         elif k == "circ":
             gl = []
             for _ in range(wl.randint(1, 6)):
@@ -353,6 +355,7 @@ def run_case(case):
                     f"got rows {got.rows[:6]} expected one of {[c[1].rows[:6] for c in candidates][:2]}", {"op": what})
         return None
 
+    bystanders = []
     Q = (lambda v: np.int64(v)) if case.get("np_ints") else (lambda v: v)
     if case.get("np_ints"):
         ctx.probe("positions_as_numpy_integers")
@@ -459,6 +462,22 @@ def run_case(case):
                     ctx.probe("swap_with_sign_set")
                 cands = [("", ref)]
                 ctx.log(step, "swap", a, b)
+            elif k == "clone":
+                # a second tableau object made from the current one (copy constructor / .copy());
+                # it is a bystander from now on: whatever happens to the original must not reach it
+                if len(bystanders) >= 2 or n > 32:
+                    continue
+                # (building a CliffordTableau from a StabilizerTableau re-synthesises the state through inverse_circuit:
+                # that is property C11's subject and is not used here - it does not always reproduce the state)
+                how = st[1] % 2
+                if how == 0:
+                    t2 = CliffordTableau(sut.tab)
+                else:
+                    t2 = sut.tab.copy()
+                bystanders.append((t2, ref.copy(), step, how))
+                ctx.probe("tableau_cloned")
+                cands = [("", ref)]
+                ctx.log(step, "clone", how)
             elif k == "circ":
                 # a gate list run through run_circuit / Stabilizer.apply_circuit, forwards or reversed (= inverse)
                 gl, rev = st[1], st[2]
@@ -643,6 +662,22 @@ def run_case(case):
         if res is None:
             break
         label, ref = res
+        stop = False
+        for (t2, r2, at, how) in bystanders:
+            bad2 = v1_v2(t2)
+            ok2 = False
+            if not bad2:
+                g2_, ips2 = import_ref(t2)
+                try:
+                    ok2 = not any(ips2) and g2_.canon() == r2.canon()
+                except ArithmeticError:
+                    ok2 = False
+            if bad2 or not ok2:
+                ctx.violate("V6_bystander_changed", step, f"a tableau object created at step {at} (way {how}) from the tableau under test changed when {what} was applied to the original: {bad2 or 'different state'}", {"op": what, "how": how})
+                stop = True
+                break
+        if stop:
+            break
         if len(cands) > 1:
             forced = cands[0][0]
             if label != forced:
